@@ -46,7 +46,10 @@ def histories(tier):
             if any(x != "none" for x in h):
                 out.append(list(h))
     if tier == "thorough":
-        out += [list(h) for h in itertools.product(kinds, repeat=4) if h[0] != "none"][::2]
+        out += [list(h) for h in itertools.product(kinds, repeat=4) if h[0] != "none"]
+        more = kinds + ["steps2", "stream_abort", "rebegin"]
+        out += [list(h) for h in itertools.product(more, repeat=3)]
+        out += [list(h) + ["none"] for h in itertools.product(more, repeat=4)][::3]
     else:
         out += [["set_k", "none", "set_c", "none"], ["set_c", "set_k", "none", "none"]]
     # the other stepping requests: run-steps (2 steps) and a stream the client abandons after its first step
@@ -82,7 +85,11 @@ def step_request(c, inst, i, kind, mode, env):
             return r
         merged = {}
         for one in scen.loads(r.data):
-            for mg, sc in (one or {}).items():
+            if not isinstance(one, dict) or "msg" in one or "error" in one:
+                continue                                    # "stop time reached" entries of a run-steps beyond the end
+            for mg, sc in one.items():
+                if not isinstance(sc, dict):
+                    continue
                 for sn, eqs in sc.items():
                     for e, tv in eqs.items():
                         merged.setdefault(mg, {}).setdefault(sn, {}).setdefault(e, {}).update(tv)
